@@ -10,7 +10,9 @@
    the step lemmas of the word splitter, (4) the per-character lemma
    split_char, induction to a pattern and to one "--exclude" chunk, (5) the
    list of chunks, specifier and variable expansion, (6) the whole line:
-   exec_roundtrip, (7) the unit file around the line: unit_text_exec_start.
+   exec_roundtrip, (7) the unit file around the line, as systemd reads the file:
+   unit_text_exec_starts, (8) the extracted checker: what its answer means on
+   any text (check_sound, check_complete) and that it is true on the model.
 
    Finite auxiliary facts (formatting of the 256 byte values, the 32 C1
    controls, validity of printable ASCII) are decided by vm_compute over an
@@ -386,11 +388,7 @@ Qed.
 
 (* ------------------------------------------------------------ the word splitter on prefixes *)
 
-Fixpoint split_pre (s : sstate) (l : list N) : option sstate :=
-  match l with
-  | [] => Some s
-  | b :: r => match step s b with None => None | Some s' => split_pre s' r end
-  end.
+(* split_pre: EscapeSpec.v *)
 
 Lemma split_run_app : forall l1 l2 s,
   split_run s (l1 ++ l2) = match split_pre s l1 with Some s' => split_run s' l2 | None => None end.
@@ -626,8 +624,7 @@ Qed.
 
 (* ---- one "--exclude <pattern>" chunk, the joined chunks, the whole line *)
 
-Definition w_exclude : list N := str "--exclude".
-Definition w_devfile : list N := str "--dev-file".
+(* w_exclude, w_devfile: EscapeSpec.v *)
 
 Lemma split_chunk : forall p ws, p <> [] -> Forall scalar_ok p ->
   split_pre (SBetween ws) (utf8 (str "--exclude " ++ systemd_arg_escape p) ++ [32])
@@ -918,6 +915,108 @@ Proof.
   rewrite env_run_lit by exact Hinst. cbn [env_run app]. rewrite app_nil_r. reflexivity.
 Qed.
 
+(* ================================================================ part 6b *)
+
+(* ------------------------------------------------------------ any front part instead of the model's *)
+
+(* a UTF-8 clean front part does not change the verdict on what follows *)
+Lemma utf8_valid_app_n : forall n P r, (List.length P <= n)%nat -> utf8_is_valid P = true ->
+  utf8_is_valid (P ++ r) = utf8_is_valid r.
+Proof.
+  induction n as [|n IH]; intros P r Hl H.
+  - destruct P; [reflexivity|cbn in Hl; lia].
+  - destruct P as [|b0 P0]; [reflexivity|]. cbn [List.length] in Hl.
+    cbn [app utf8_is_valid] in *.
+    destruct (b0 =? 0); [discriminate H|].
+    destruct (b0 <? 128); [apply IH; [lia|exact H]|].
+    destruct (b0 <? 192); [discriminate H|].
+    destruct (b0 <? 224).
+    { destruct P0 as [|b1 P1]; [discriminate H|]. cbn [List.length] in Hl. cbn [app]. cbv zeta in *.
+      apply andb_prop in H. destruct H as [H HP]. rewrite H. cbn [andb]. apply IH; [lia|exact HP]. }
+    destruct (b0 <? 240).
+    { destruct P0 as [|b1 [|b2 P2]]; try discriminate H. cbn [List.length] in Hl. cbn [app]. cbv zeta in *.
+      apply andb_prop in H. destruct H as [H HP]. rewrite H. cbn [andb]. apply IH; [lia|exact HP]. }
+    destruct (b0 <? 248); [|discriminate H].
+    destruct P0 as [|b1 [|b2 [|b3 P3]]]; try discriminate H. cbn [List.length] in Hl. cbn [app]. cbv zeta in *.
+    apply andb_prop in H. destruct H as [H HP]. rewrite H. cbn [andb]. apply IH; [lia|exact HP].
+Qed.
+
+Lemma utf8_valid_app : forall P r, utf8_is_valid P = true -> utf8_is_valid (P ++ r) = utf8_is_valid r.
+Proof. intros P r H. apply (utf8_valid_app_n (List.length P)); [lia|exact H]. Qed.
+
+Lemma exec_line_suffix : forall pats, utf8 (exec_line pats) = utf8 prefix_text ++ suffix_text pats.
+Proof. intros pats. rewrite exec_line_split. reflexivity. Qed.
+
+Lemma suffix_text_valid : forall pats, pats_ok pats -> utf8_is_valid (suffix_text pats) = true.
+Proof.
+  intros pats H. rewrite <- (utf8_valid_app (utf8 prefix_text) (suffix_text pats)) by (vm_compute; reflexivity).
+  rewrite <- exec_line_suffix. apply exec_line_valid. exact H.
+Qed.
+
+(* the words of  P ++ suffix_text pats  before specifier and variable expansion *)
+Lemma split_any_line : forall P praw pats, pats_ok pats ->
+  split_pre (SBetween []) P = Some (SBetween (rev praw)) ->
+  split_words (P ++ suffix_text pats)
+  = Some (praw ++ flat_map (fun p => [w_exclude; interW p]) pats ++ [w_devfile; [47; 37; 73]]).
+Proof.
+  intros P praw pats H HP. unfold split_words, suffix_text.
+  rewrite split_run_app. rewrite HP. rewrite split_run_app. rewrite split_excludes by exact H.
+  set (mid := flat_map (fun p => [w_exclude; interW p]) pats).
+  change (split_run (SBetween (rev mid ++ rev praw)) (utf8 (str "--dev-file /%I")))
+    with (Some (rev ([47; 37; 73] :: w_devfile :: rev mid ++ rev praw))).
+  f_equal. clearbody mid. cbn [rev]. rewrite rev_app_distr, !rev_involutive.
+  rewrite <- !app_assoc. reflexivity.
+Qed.
+
+Lemma spec_tail : forall inst, spec_all inst [w_devfile; [47; 37; 73]] = Some [w_devfile; 47 :: inst].
+Proof.
+  intros inst. cbn [spec_all]. change (spec_run inst false w_devfile) with (Some w_devfile).
+  change (spec_run inst false [47; 37; 73]) with (Some (47 :: inst ++ [])). rewrite app_nil_r. reflexivity.
+Qed.
+
+Lemma env_tail : forall inst env, Forall (fun b => b <> 36) inst ->
+  flat_map (env_word env) [w_devfile; 47 :: inst] = [w_devfile; 47 :: inst].
+Proof.
+  intros inst env Hinst. cbn [flat_map]. change (env_word env w_devfile) with [w_devfile].
+  unfold env_word. cbn [N.eqb Pos.eqb]. cbn [app]. f_equal. f_equal.
+  change (47 :: inst) with ([47] ++ inst).
+  rewrite <- (app_nil_r ([47] ++ inst)) at 1. rewrite <- app_assoc.
+  rewrite env_run_lit by (constructor; [lia|constructor]).
+  rewrite env_run_lit by exact Hinst. cbn [env_run app]. rewrite app_nil_r. reflexivity.
+Qed.
+
+(* For EVERY front part P that systemd, reading it alone, takes as the complete
+   words pre (read_prefix), the line  P ++ <what the escaper writes from the
+   exclude region on>  is read as  pre, then "--exclude" <bytes of the pattern>
+   for each pattern, then "--dev-file" "/<instance>" *)
+Theorem decode_any_prefix : forall (inst : list N) (env : list N -> option (list N)) (P : list N)
+    (pre : list (list N)) (pats : list (list N)),
+  Forall (fun b => b <> 36) inst ->
+  pats_ok pats ->
+  read_prefix inst env P = Some pre ->
+  decode inst env (P ++ suffix_text pats) = Some (pre ++ exclude_args pats ++ [w_devfile; 47 :: inst]).
+Proof.
+  intros inst env P pre pats Hinst H HP. unfold read_prefix in HP.
+  destruct (utf8_is_valid P) eqn:HV; [|discriminate HP].
+  destruct (split_pre (SBetween []) P) as [[ws| | | | |]|] eqn:HS; try discriminate HP.
+  destruct (spec_all inst (rev ws)) as [pspec|] eqn:HSp; [|discriminate HP].
+  destruct pspec as [|[|b t] r]; try discriminate HP.
+  destruct (b =? 47) eqn:Hb; [|discriminate HP].
+  inversion HP as [Epre]. clear HP.
+  unfold decode. rewrite utf8_valid_app by exact HV. rewrite suffix_text_valid by exact H.
+  rewrite (split_any_line P (rev ws) pats H) by (rewrite rev_involutive; exact HS).
+  rewrite (spec_all_app inst _ _ _ _ HSp (spec_all_app inst _ _ _ _ (spec_all_excludes pats inst H) (spec_tail inst))).
+  cbn [app]. rewrite Hb.
+  change ((b :: t) :: r ++ flat_map (fun p => [w_exclude; flat_map inter2 p]) pats ++ [w_devfile; 47 :: inst])
+    with (((b :: t) :: r) ++ flat_map (fun p => [w_exclude; flat_map inter2 p]) pats ++ [w_devfile; 47 :: inst]).
+  rewrite !flat_map_app. rewrite env_excludes by exact H. rewrite env_tail by exact Hinst. reflexivity.
+Qed.
+
+(* the model's own front part is one of them *)
+Lemma model_prefix_reads : forall inst env, read_prefix inst env (utf8 prefix_text) = Some fixed_prefix_words.
+Proof. intros inst env. reflexivity. Qed.
+
+
 (* ================================================================ part 7 *)
 
 
@@ -925,14 +1024,16 @@ Qed.
 
 Definition no_eol (b : N) : Prop := b <> 10 /\ b <> 13 /\ b <> 0.
 
-Lemma lines_go_last : forall L cur, Forall no_eol L -> cur <> [] ->
-  lines_go cur (L ++ [10]) = [rev (rev L ++ cur)].
+(* read_line on the last line of a file that ends with one LF *)
+Lemma read_lines_last : forall L cur, Forall no_eol L ->
+  read_lines cur [] (L ++ [10]) = [rev (rev L ++ cur)].
 Proof.
-  induction L as [|b L IH]; intros cur H Hc.
-  - cbn [app lines_go N.eqb orb rev]. destruct cur as [|x cur']; [contradiction|]. reflexivity.
-  - inversion H as [|? ? [H10 [H13 H0]] HL]; subst. cbn [app lines_go].
-    rewrite (eqb_f b 10), (eqb_f b 13), (eqb_f b 0) by assumption. cbn [orb].
-    rewrite IH by (try exact HL; discriminate). cbn [rev]. rewrite <- app_assoc. reflexivity.
+  induction L as [|b L IH]; intros cur H.
+  - reflexivity.
+  - inversion H as [|? ? [H10 [H13 H0]] HL]; subst. cbn [app read_lines].
+    unfold is_eol. rewrite (eqb_f b 10), (eqb_f b 13), (eqb_f b 0) by assumption.
+    cbn [memb existsb nonempty orb andb negb].
+    rewrite IH by exact HL. cbn [rev]. rewrite <- app_assoc. reflexivity.
 Qed.
 
 Lemma exec_line_no_eol : forall pats, pats_ok pats -> Forall no_eol (utf8 (exec_line pats)).
@@ -948,47 +1049,100 @@ Proof.
     unfold no_eol. lia.
 Qed.
 
-Lemma strip_prefix_app : forall p l, strip_prefix p (p ++ l) = Some l.
+(* a line whose last byte is not a backslash is not continued *)
+Lemma ends_escaped_last : forall l e b, b <> 92 -> ends_escaped e (l ++ [b]) = false.
 Proof.
-  induction p as [|a p IH]; intros l.
-  - reflexivity.
-  - cbn [app strip_prefix]. rewrite N.eqb_refl. apply IH.
+  induction l as [|x l IH]; intros e b H.
+  - cbn [app ends_escaped]. destruct e; [reflexivity|]. apply eqb_f. exact H.
+  - cbn [app ends_escaped]. destruct e; apply IH; exact H.
 Qed.
 
-(* a reader of the written unit file finds the fixed header lines and exactly
-   one more line, "ExecStart=" followed by exec_line *)
-Theorem unit_text_exec_start : forall pats, pats_ok pats ->
-  unit_exec_start expected_header (utf8 (build_service_text pats)) = Some (utf8 (exec_line pats)).
+(* strstrip leaves a line alone that begins and ends with a non-blank byte *)
+Lemma strstrip_id : forall l b0 t l' x, l = b0 :: t -> l = l' ++ [x] -> is_ws b0 = false -> is_ws x = false ->
+  strstrip l = l.
 Proof.
-  intros pats H. unfold unit_exec_start, unit_lines, build_service_text.
+  intros l b0 t l' x E1 E2 H0 Hx. unfold strstrip.
+  assert (S1 : skip_ws l = l). { rewrite E1. cbn [skip_ws]. rewrite H0. reflexivity. }
+  rewrite S1. rewrite E2 at 1. rewrite rev_app_distr. cbn [rev app skip_ws]. rewrite Hx.
+  change (x :: rev l') with (rev [x] ++ rev l'). rewrite <- rev_app_distr, rev_involutive. symmetry. exact E2.
+Qed.
+
+(* the shape of the model's line: it begins with "/" and ends with "I" *)
+Lemma exec_line_ends : forall pats, exists L1 L2,
+  utf8 (exec_line pats) = 47 :: L1 /\ utf8 (exec_line pats) = L2 ++ [73].
+Proof.
+  intros pats. rewrite exec_line_split.
+  exists (tl (utf8 prefix_text) ++ (utf8 (build_exclude_text pats) ++ [32]) ++ utf8 (str "--dev-file /%I")).
+  exists (utf8 prefix_text ++ (utf8 (build_exclude_text pats) ++ [32]) ++ utf8 (str "--dev-file /%")).
+  split.
+  - reflexivity.
+  - change (utf8 (str "--dev-file /%I")) with (utf8 (str "--dev-file /%") ++ [73]).
+    rewrite <- !app_assoc. reflexivity.
+Qed.
+
+(* parse_line on the model's ExecStart= line *)
+Lemma classify_exec_line : forall pats, pats_ok pats ->
+  classify_line (str "ExecStart=" ++ utf8 (exec_line pats)) = LAssign name_exec_start (utf8 (exec_line pats)).
+Proof.
+  intros pats H. destruct (exec_line_ends pats) as [L1 [L2 [E1 E2]]].
+  set (L := utf8 (exec_line pats)) in *.
+  unfold classify_line.
+  assert (S1 : strstrip (str "ExecStart=" ++ L) = str "ExecStart=" ++ L).
+  { apply (strstrip_id _ 69 (tl (str "ExecStart=") ++ L) (str "ExecStart=" ++ L2) 73); try reflexivity.
+    rewrite E2 at 1. rewrite app_assoc. reflexivity. }
+  rewrite S1.
+  assert (V : utf8_is_valid (str "ExecStart=" ++ L) = true).
+  { change (str "ExecStart=") with (utf8 (str "ExecStart=")). rewrite utf8_valid_all.
+    - apply exec_line_valid. exact H.
+    - apply ascii_text_forall; [exact ascii_lit_ok|vm_compute; reflexivity]. }
+  change (str "ExecStart=" ++ L) with (69 :: tl (str "ExecStart=") ++ L) at 1.
+  cbv iota. rewrite V. cbn [negb].
+  change (69 =? 91) with false. cbv iota.
+  change (split_assign [] (str "ExecStart=" ++ L)) with (Some (name_exec_start, L)).
+  cbv iota. change name_exec_start with (69 :: tl name_exec_start) at 1. cbv iota.
+  change (strstrip (69 :: tl name_exec_start)) with name_exec_start.
+  assert (S2 : strstrip L = L).
+  { apply (strstrip_id _ 47 L1 L2 73); try assumption; reflexivity. }
+  rewrite S2. reflexivity.
+Qed.
+
+(* What systemd finds in the written unit file: one ExecStart= assignment in
+   [Service], and its value is exec_line — no pattern can break the line, start
+   a comment or a continuation, or add another assignment *)
+Theorem unit_text_exec_starts : forall pats, pats_ok pats ->
+  service_exec_starts (utf8 (build_service_text pats)) = Some [utf8 (exec_line pats)].
+Proof.
+  intros pats H. unfold service_exec_starts, file_lines, build_service_text.
   rewrite !utf8_app. change (utf8 [10]) with [10].
-  set (L := utf8 (exec_line pats)).
-  change (lines_go [] (utf8 service_header ++ utf8 (str "ExecStart=") ++ L ++ [10]))
-    with (str "[Unit]" :: str "Description=Totalmapper" :: str "[Service]" :: str "Type=simple"
-          :: str "User=totalmapper" :: str "Group=input" :: lines_go (rev (str "ExecStart=")) (L ++ [10])).
-  rewrite lines_go_last by (try (apply exec_line_no_eol; exact H); discriminate).
+  pose proof (classify_exec_line pats H) as HC.
+  pose proof (exec_line_no_eol pats H) as HN.
+  destruct (exec_line_ends pats) as [L1 [L2 [E1 E2]]].
+  set (L := utf8 (exec_line pats)) in *.
+  change (read_lines [] [] (utf8 service_header ++ utf8 (str "ExecStart=") ++ L ++ [10]))
+    with (str "[Unit]" :: str "Description=Totalmapper" :: [] :: str "[Service]" :: str "Type=simple"
+          :: str "User=totalmapper" :: str "Group=input" :: read_lines (rev (str "ExecStart=")) [] (L ++ [10])).
+  rewrite read_lines_last by exact HN.
   rewrite rev_app_distr, !rev_involutive.
-  unfold expected_header. cbn [exec_start_after].
-  change (list_eqb (str "[Unit]") (str "[Unit]")) with true.
-  change (list_eqb (str "Description=Totalmapper") (str "Description=Totalmapper")) with true.
-  change (list_eqb (str "[Service]") (str "[Service]")) with true.
-  change (list_eqb (str "Type=simple") (str "Type=simple")) with true.
-  change (list_eqb (str "User=totalmapper") (str "User=totalmapper")) with true.
-  change (list_eqb (str "Group=input") (str "Group=input")) with true.
-  cbv iota.
-  assert (Hlast : exists L', L = L' ++ [73]).
-  { unfold L. rewrite exec_line_split. eexists. 
-    change (utf8 (str "--dev-file /%I")) with (utf8 (str "--dev-file /%") ++ [73]).
-    rewrite !app_assoc. reflexivity. }
-  destruct Hlast as [L' EL]. rewrite EL at 1. rewrite app_assoc, rev_app_distr. cbn [rev app existsb N.eqb Pos.eqb orb].
-  change [69; 120; 101; 99; 83; 116; 97; 114; 116; 61] with (str "ExecStart=").
-  apply strip_prefix_app.
+  set (EL := str "ExecStart=" ++ L) in *.
+  change (unit_run (UState None false false [])
+            [str "[Unit]"; str "Description=Totalmapper"; []; str "[Service]"; str "Type=simple";
+             str "User=totalmapper"; str "Group=input"; EL])
+    with (unit_run (UState None false true []) [EL]).
+  cbn [unit_run unit_step].
+  assert (C1 : is_comment_line EL = false) by reflexivity.
+  assert (C2 : drop_bom false EL = (EL, false)) by reflexivity.
+  rewrite C1, C2. cbn [fst snd].
+  assert (C3 : ends_escaped false EL = false).
+  { unfold EL. rewrite E2. rewrite app_assoc. apply ends_escaped_last. lia. }
+  rewrite C3. unfold apply_line. rewrite HC.
+  change (true && list_eqb name_exec_start name_exec_start) with true. cbv iota.
+  cbn [fst snd unit_finish rev app]. reflexivity.
 Qed.
 
 
 (* ================================================================ part 8 *)
 
-(* ------------------------------------------------------------ the extracted checker on the model *)
+(* ------------------------------------------------------------ the extracted checker: what its answer means *)
 
 Lemma list_eqb_refl : forall a, list_eqb a a = true.
 Proof. induction a as [|x a IH]; [reflexivity|]. cbn [list_eqb]. rewrite N.eqb_refl. exact IH. Qed.
@@ -996,21 +1150,200 @@ Proof. induction a as [|x a IH]; [reflexivity|]. cbn [list_eqb]. rewrite N.eqb_r
 Lemma argv_eqb_refl : forall a, argv_eqb a a = true.
 Proof. induction a as [|x a IH]; [reflexivity|]. cbn [argv_eqb]. rewrite list_eqb_refl. exact IH. Qed.
 
+Lemma argv_eqb_eq : forall a b, argv_eqb a b = true -> a = b.
+Proof.
+  induction a as [|x a IH]; intros [|y b] H; cbn [argv_eqb] in H; try discriminate; try reflexivity.
+  apply andb_prop in H. destruct H as [H1 H2]. apply list_eqb_eq in H1. subst y. f_equal. apply IH. exact H2.
+Qed.
+
+Lemma word_in_In : forall w ws, word_in w ws = true <-> In w ws.
+Proof.
+  intros w ws. unfold word_in. rewrite existsb_exists. split.
+  - intros [x [Hx E]]. apply list_eqb_eq in E. subst x. exact Hx.
+  - intros Hw. exists w. split; [exact Hw|apply list_eqb_refl].
+Qed.
+
+Lemma word_in_false : forall w ws, word_in w ws = false -> ~ In w ws.
+Proof. intros w ws H Hin. apply word_in_In in Hin. rewrite Hin in H. discriminate. Qed.
+
+Lemma layout_and_flag_sound : forall ws before, layout_and_flag before ws = true ->
+  exists a v b, ws = a ++ [w_layout_file; v] ++ b
+                /\ (In w_only_if_keyboard before \/ In w_only_if_keyboard (a ++ b)).
+Proof.
+  induction ws as [|w r IH]; intros before H.
+  - discriminate H.
+  - cbn [layout_and_flag] in H. destruct r as [|v r']; [discriminate H|].
+    apply orb_prop in H. destruct H as [H|H].
+    + apply andb_prop in H. destruct H as [Hw Hf]. apply list_eqb_eq in Hw. subst w.
+      exists [], v, r'. split; [reflexivity|]. cbn [app].
+      apply orb_prop in Hf. destruct Hf as [Hf|Hf]; apply word_in_In in Hf; [left|right]; exact Hf.
+    + destruct (IH (w :: before) H) as [a [v' [b [E Hin]]]].
+      exists (w :: a), v', b. split; [cbn [app]; rewrite E; reflexivity|].
+      destruct Hin as [[Hin|Hin]|Hin].
+      * right. left. exact Hin.
+      * left. exact Hin.
+      * right. right. exact Hin.
+Qed.
+
+Lemma layout_and_flag_complete : forall a v b before,
+  In w_only_if_keyboard before \/ In w_only_if_keyboard (a ++ b) ->
+  layout_and_flag before (a ++ [w_layout_file; v] ++ b) = true.
+Proof.
+  induction a as [|x a IH]; intros v b before H.
+  - cbn [app layout_and_flag]. rewrite list_eqb_refl. cbn [andb].
+    apply orb_true_intro. left. apply orb_true_intro.
+    destruct H as [H|H]; [left|right]; apply word_in_In; exact H.
+  - cbn [app layout_and_flag].
+    destruct (a ++ w_layout_file :: v :: b) as [|y r'] eqn:E.
+    + exfalso. exact (app_cons_not_nil _ _ _ (eq_sym E)).
+    + apply orb_true_intro. right. change (y :: r') with ([] ++ y :: r'). cbn [app]. rewrite <- E.
+      apply (IH v b (x :: before)). cbn [app] in H.
+      destruct H as [H|[H|H]].
+      * left. right. exact H.
+      * left. left. exact H.
+      * right. exact H.
+Qed.
+
+Lemma prefix_ok_sound : forall pre, prefix_ok pre = true -> prefix_intact pre.
+Proof.
+  intros pre H. unfold prefix_ok in H. destruct pre as [|w0 pre']; [discriminate H|].
+  apply andb_prop in H. destruct H as [H1 H2].
+  split; [discriminate|]. split.
+  - apply word_in_false. destruct (word_in w_exclude (w0 :: pre')); [discriminate H1|reflexivity].
+  - destruct (layout_and_flag_sound _ _ H2) as [a [v [b [E [Hin|Hin]]]]]; [contradiction|].
+    exists a, v, b. split; assumption.
+Qed.
+
+Lemma prefix_ok_complete : forall pre, prefix_intact pre -> prefix_ok pre = true.
+Proof.
+  intros pre [Hne [Hno [a [v [b [E Hin]]]]]]. unfold prefix_ok.
+  destruct pre as [|w0 pre']; [contradiction|].
+  destruct (word_in w_exclude (w0 :: pre')) eqn:Ew.
+  - exfalso. apply Hno. apply word_in_In. exact Ew.
+  - cbn [negb andb]. rewrite E. apply layout_and_flag_complete. right. exact Hin.
+Qed.
+
+Lemma skipn_length_app : forall (A : Type) (a b : list A), skipn (List.length a) (a ++ b) = b.
+Proof. induction a as [|x a IH]; intros b; [reflexivity|]. cbn [List.length app skipn]. apply IH. Qed.
+
+Lemma firstn_length_app : forall (A : Type) (a b : list A), firstn (List.length a) (a ++ b) = a.
+Proof. induction a as [|x a IH]; intros b; [reflexivity|]. cbn [List.length app firstn]. f_equal. apply IH. Qed.
+
+Lemma argv_ok_sound : forall inst pats argv, argv_ok inst pats argv = true ->
+  exists pre, argv = pre ++ required_suffix inst pats /\ prefix_intact pre.
+Proof.
+  intros inst pats argv H. unfold argv_ok in H. cbv zeta in H.
+  apply andb_prop in H. destruct H as [H1 H2].
+  exists (firstn (List.length argv - List.length (required_suffix inst pats)) argv). split.
+  - apply argv_eqb_eq in H1.
+    transitivity (firstn (List.length argv - List.length (required_suffix inst pats)) argv
+                  ++ skipn (List.length argv - List.length (required_suffix inst pats)) argv).
+    + symmetry. apply firstn_skipn.
+    + f_equal. exact H1.
+  - apply prefix_ok_sound. exact H2.
+Qed.
+
+Lemma argv_ok_complete : forall inst pats pre, prefix_intact pre ->
+  argv_ok inst pats (pre ++ required_suffix inst pats) = true.
+Proof.
+  intros inst pats pre H. unfold argv_ok. cbv zeta.
+  rewrite app_length. rewrite Nat.add_sub.
+  rewrite skipn_length_app, firstn_length_app, argv_eqb_refl. cbn [andb].
+  apply prefix_ok_complete. exact H.
+Qed.
+
+(* A true answer of the checker on ANY text: systemd finds exactly one
+   ExecStart= command in [Service] and reads it as an intact prefix, then
+   exactly "--exclude" <bytes of the pattern> for each of the user's patterns
+   in order, then "--dev-file" "/<instance>" *)
+Theorem check_sound : forall inst env pats text,
+  c17_check inst env pats text = true -> c17_holds inst env pats text.
+Proof.
+  intros inst env pats text H. unfold c17_check, read_unit in H.
+  destruct (service_exec_starts text) as [[|line [|l2 ls]]|] eqn:ES; try discriminate H.
+  destruct (decode inst env line) as [argv|] eqn:ED; [|discriminate H].
+  destruct (argv_ok_sound _ _ _ H) as [pre [E Hpre]].
+  exists line, argv, pre. split; [exact ES|]. split; [exact ED|]. split; [exact E|exact Hpre].
+Qed.
+
+(* ... and a false answer means the text does not have the property *)
+Theorem check_complete : forall inst env pats text,
+  c17_holds inst env pats text -> c17_check inst env pats text = true.
+Proof.
+  intros inst env pats text [line [argv [pre [ES [ED [E Hpre]]]]]].
+  unfold c17_check, read_unit. rewrite ES, ED. rewrite E. apply (argv_ok_complete inst pats pre Hpre).
+Qed.
+
+(* ------------------------------------------------------------ the extracted checker on the model *)
+
 Theorem unit_roundtrip : forall (inst : list N) (env : list N -> option (list N)) (pats : list (list N)),
   Forall (fun b => b <> 36) inst ->
   pats_ok pats ->
-  read_back inst env (utf8 (build_service_text pats)) = Some (expected_argv inst pats).
+  read_unit inst env (utf8 (build_service_text pats)) = Some (expected_argv inst pats).
 Proof.
-  intros inst env pats Hinst H. unfold read_back. rewrite unit_text_exec_start by exact H.
+  intros inst env pats Hinst H. unfold read_unit. rewrite unit_text_exec_starts by exact H.
   rewrite exec_roundtrip by assumption. reflexivity.
 Qed.
+
+Lemma fixed_prefix_intact : prefix_intact fixed_prefix_words.
+Proof. apply prefix_ok_sound. vm_compute. reflexivity. Qed.
 
 Theorem check_on_model : forall (inst : list N) (env : list N -> option (list N)) (pats : list (list N)),
   Forall (fun b => b <> 36) inst ->
   pats_ok pats ->
   c17_check inst env pats (utf8 (build_service_text pats)) = true.
 Proof.
-  intros inst env pats Hinst H. unfold c17_check. rewrite unit_roundtrip by assumption. apply argv_eqb_refl.
+  intros inst env pats Hinst H. unfold c17_check. rewrite unit_roundtrip by assumption.
+  unfold expected_argv. apply argv_ok_complete. exact fixed_prefix_intact.
+Qed.
+
+(* ------------------------------------------------------------ the checker on any unit with such a line *)
+
+(* A unit text in which systemd finds one ExecStart= assignment, whose value is
+   a front part P read as an intact prefix followed by what the escaper writes
+   from the exclude region on, has the property — whatever else the unit says *)
+Theorem check_on_any_prefix : forall (inst : list N) (env : list N -> option (list N)) (pats : list (list N))
+    (text P : list N) (pre : list (list N)),
+  Forall (fun b => b <> 36) inst ->
+  pats_ok pats ->
+  service_exec_starts text = Some [P ++ suffix_text pats] ->
+  read_prefix inst env P = Some pre ->
+  prefix_ok pre = true ->
+  c17_check inst env pats text = true.
+Proof.
+  intros inst env pats text P pre Hinst H ES HP Hok. apply check_complete.
+  exists (P ++ suffix_text pats), (pre ++ exclude_args pats ++ [w_devfile; 47 :: inst]), pre.
+  split; [exact ES|]. split; [apply decode_any_prefix; assumption|]. split; [reflexivity|].
+  apply prefix_ok_sound. exact Hok.
+Qed.
+
+(* the comparison of correspondence class TEXT is exactly the hypotheses of
+   that theorem: a real unit text that passes it has the property *)
+Theorem text_class_ok_check : forall (inst : list N) (env : list N -> option (list N)) (pats : list (list N))
+    (text : list N),
+  Forall (fun b => b <> 36) inst ->
+  pats_ok pats ->
+  text_class_ok inst env pats text = true ->
+  c17_check inst env pats text = true.
+Proof.
+  intros inst env pats text Hinst H HT. unfold text_class_ok in HT.
+  destruct (service_exec_starts text) as [[|line [|l2 ls]]|] eqn:ES; try discriminate HT.
+  cbv zeta in HT. apply andb_prop in HT. destruct HT as [HS HP].
+  set (n := (List.length line - List.length (suffix_text pats))%nat) in *.
+  destruct (read_prefix inst env (firstn n line)) as [pre|] eqn:HR; [|discriminate HP].
+  apply (check_on_any_prefix inst env pats text (firstn n line) pre); try assumption.
+  rewrite ES. f_equal. f_equal. apply list_eqb_eq in HS. rewrite <- HS. symmetry. apply firstn_skipn.
+Qed.
+
+(* and the model's text passes it *)
+Theorem text_class_ok_model : forall (inst : list N) (env : list N -> option (list N)) (pats : list (list N)),
+  pats_ok pats ->
+  text_class_ok inst env pats (utf8 (build_service_text pats)) = true.
+Proof.
+  intros inst env pats H. unfold text_class_ok. rewrite unit_text_exec_starts by exact H. cbv zeta.
+  rewrite exec_line_suffix. rewrite app_length, Nat.add_sub.
+  rewrite skipn_length_app, firstn_length_app, list_eqb_refl. cbn [andb].
+  rewrite model_prefix_reads. vm_compute. reflexivity.
 Qed.
 
 (* scalar_okb decides scalar_ok *)
